@@ -129,3 +129,84 @@ MUTANTS = [
     dict(name="cis mode counts trans pixels in the filters", file="_balance.py", old="    if cis_only:\n        base_filters.append(_zero_trans)", new="    if False:\n        base_filters.append(_zero_trans)", checks=["mask_set"]),
     dict(name="binarize missing in nnz filter", file="_balance.py", old="        filters = [_binarize, *base_filters]", new="        filters = [*base_filters]", checks=["mask_set"]),
 ]
+
+
+# ---------------------------------------------------------------------------
+# the command line's --blacklist: BED intervals -> the bins handed to balance_cooler
+# ---------------------------------------------------------------------------
+class _Captured(Exception):
+    def __init__(self, blacklist):
+        self.blacklist = blacklist
+
+
+def cli_blacklist_body(env, p):
+    """`cooler balance --blacklist regions.bed`: the bins excluded are exactly the bins that overlap an interval of the file, on its own
+    chromosome. The interval is symbolic (stub: the frame read_csv returns for the three BED columns), the call into balance_cooler is
+    intercepted and its `blacklist` argument is the observable; on the real side a real BED file is written and parsed."""
+    import os
+    from .common import scratch, scratch_file, env_pixels, vals
+    from .model import concrete_bins
+    env.reset()
+    layout, kind = p["layout"], p["kind"]
+    n = sum(layout)
+    bins = concrete_bins(layout, kind)
+    path = scratch_file("c10cli.cool")
+    b1, b2, v = [0], [n - 1], [3]
+    env.build_cooler(path, bins, b1, b2, {"count": v}, True)
+    names = list(dict.fromkeys(bins["chrom"].tolist()))
+    ci = env.choice("chrom", len(names))
+    L = int(bins[bins["chrom"] == names[ci]]["end"].max())
+    start, end = env.int("start", 0, L), env.int("end", 0, L)
+    env.assume(start < end)
+    starts, ends, chroms = bins["start"].tolist(), bins["end"].tolist(), bins["chrom"].tolist()
+    env.cover("end_inside_a_bin", or_(*[and_(s < end, end < e) for c, s, e in zip(chroms, starts, ends) if c == names[ci]]))
+    env.cover("inside_one_bin", or_(*[and_(s <= start, end <= e) for c, s, e in zip(chroms, starts, ends) if c == names[ci]]))
+    env.cover("to_chromosome_end", end == L)
+    bed = os.path.join(scratch(), "c10.bed")
+    M = env.mod("cli.balance")
+    if env.symbolic:
+        open(bed, "w").write(f"{names[ci]}\t0\t1\n")
+        sympd = env.pd
+        frame = sympd.DataFrame({"chrom": [names[ci]], "start": env.array([start], "int64"), "end": env.array([end], "int64")})
+        saved_pd = M.pd
+        M.pd = type("pdproxy", (), {"__getattr__": lambda self, k: getattr(sympd, k), "read_csv": staticmethod(lambda *a, **kw: frame)})()
+    else:
+        # the interval twice: Python's csv.Sniffer takes the only line of a one-line file for a header (the command then stops with
+        # "need at least one array to concatenate" - loud, and not a matter of this property)
+        open(bed, "w").write(f"{names[ci]}\t{start}\t{end}\n" * 2)
+    saved = M.balance_cooler
+
+    def capture(clr, **kw):
+        raise _Captured(kw.get("blacklist"))
+    M.balance_cooler = capture
+    try:
+        M.balance.callback(cool_uri=path, nproc=1, chunksize=100, mad_max=0, min_nnz=0, min_count=0, blacklist=bed, ignore_diags=0, tol=1e-5,
+                           cis_only=False, trans_only=False, max_iters=5, name="weight", force=True, check=False, stdout=False,
+                           convergence_policy="store_final", ignore_dist=None)
+        env.fail("the command did not reach balance_cooler")
+    except _Captured as c:
+        got = [x for x in vals(c.blacklist)] if c.blacklist is not None else None
+    finally:
+        M.balance_cooler = saved
+        if env.symbolic:
+            M.pd = saved_pd
+    if got is None:
+        env.fail("no blacklist was handed to balance_cooler although --blacklist was given")
+    want = [and_(c == names[ci], s < end, e > start) for c, s, e in zip(chroms, starts, ends)]
+    conds = []
+    for k in range(n):
+        listed = or_(*[g == k for g in got]) if got else False
+        conds.append(listed == want[k] if env.symbolic else bool(listed) == bool(want[k]))
+    env.check(and_(*conds), "the bins excluded by --blacklist are not exactly the bins overlapping the interval (on its chromosome)")
+    return ["captured"]
+
+
+cli_bl_sym, cli_bl_real = both(cli_blacklist_body)
+
+CHECKS.append(Check("cli_blacklist", lambda tier: [dict(layout=[3, 2], kind="fixed"), dict(layout=[2, 3], kind="variable")] if tier == "quick" else
+                    [dict(layout=[3, 2], kind="fixed"), dict(layout=[2, 3], kind="variable"), dict(layout=[4, 1, 3], kind="fixed"), dict(layout=[5], kind="variable")],
+                    cli_bl_sym, cli_bl_real, labels=("end_inside_a_bin", "inside_one_bin", "to_chromosome_end"),
+                    doc="cooler balance --blacklist: one BED interval with symbolic bounds on a solver-chosen chromosome; the bin ids handed to "
+                        "balance_cooler are exactly the bins overlapping it (fixed- and variable-width tables)",
+                    bounds=dict(quick="<=5 bins, 2 chromosomes, interval bounds anywhere in the chromosome", thorough="<=8 bins, 3 chromosomes"),
+                    stubs=("E6-like: the frame read_csv returns for the three BED columns is symbolic; the real side parses a real file", "E3", "E4")))
